@@ -8,6 +8,7 @@ and compared segment by segment, with labels (name stem vs value provenance).
 from __future__ import annotations
 
 import ast
+from collections import Counter
 import re
 
 from sa import norm
@@ -22,6 +23,7 @@ from .common import callee_name, depends_on, flow_of, has_fact, subexprs
 
 SNAX = "snaxc/accelerators/snax.py"
 XDMA = "snaxc/accelerators/snax_xdma.py"
+GEMMX = "snaxc/accelerators/snax_gemmx.py"
 VOCAB = ("upper_bounds", "temporal_strides", "spatial_strides", "operands", "zero_address")
 CONFIG_COND = re.compile(r"^(Has\(|isinstance\(\$\d+, StreamerExtension\))")
 
@@ -161,6 +163,7 @@ def run(repo: Repo, chk: Check) -> None:
     padding(repo, chk)
     extension_tables(repo, chk)
     replication_guards(repo, chk)
+    shift_packing(repo, chk)
 
 
 # --------------------------------------------------------------------------- streamer layouts
@@ -611,3 +614,131 @@ def replication_guards(repo: Repo, chk: Check) -> None:
                    "tests another list): per-channel values are silently overwritten by the first one", s.fact_texts)
     if n == 0:
         raise AnalysisError(f"{f.where}: replication statements not found")
+
+
+# --------------------------------------------------------------------------- four shift values per register: one placement everywhere
+class _Bits:
+    """a set of (token, bit offset) placements inside one register"""
+
+    def __init__(self, items=()):
+        self.items = frozenset(items)
+
+    def __repr__(self) -> str:
+        return "|".join(f"{t}<<{o}" for t, o in sorted(self.items))
+
+
+def _bits_hook(op, a, b):
+    if isinstance(a, _Bits) and isinstance(op, ast.LShift) and isinstance(b, int):
+        return _Bits((t, o + b) for t, o in a.items)
+    if isinstance(op, (ast.BitOr, ast.Add)) and (isinstance(a, _Bits) or isinstance(b, _Bits)):
+        ia = a.items if isinstance(a, _Bits) else (frozenset() if a == 0 else None)
+        ib = b.items if isinstance(b, _Bits) else (frozenset() if b == 0 else None)
+        if ia is None or ib is None:
+            return NotImplemented
+        return _Bits(ia | ib)
+    if isinstance(a, _Bits) and isinstance(op, ast.BitAnd):
+        return a  # masking to the field width keeps the placement
+    return NotImplemented
+
+
+def _unwrap(v):
+    from sa.absexec import Obj
+
+    while isinstance(v, Obj) and v.cls in ("ConstantOp", "Packed"):
+        v = v.f.get("value")
+    return v
+
+
+def shift_packing(repo: Repo, chk: Check) -> None:
+    from sa.absexec import AbsExec, AbsRaise, Obj, Tok, Undecided
+
+    chk.rule(
+        "C08.shift-packing",
+        "every loop in the gemmx accelerator that packs four per-channel values into one register (`for .. in range(0, len(xs), 4)`) places "
+        "channel 4r+j at the same bit offset of register r: the setup path and the per-channel launch path are siblings and must agree "
+        "(evaluated abstractly on channel tokens; which placement the hardware wants is not decided)",
+        floor=2,
+    )
+    c = repo.cls(GEMMX, "SNAXGEMMXAccelerator")
+    placements = []
+    for m in c.methods.values():
+        for lp in [n for n in ast.walk(m.node) if isinstance(n, ast.For)]:
+            mm = norm.match(T("range(0, len($xs), 4)"), lp.iter)
+            if mm is None or not isinstance(mm["xs"], ast.Name):
+                continue
+            xs = mm["xs"].id
+
+            def packed(values, offsets, dtype=32):
+                vals = [_unwrap(v) for v in values]
+                offs = [_unwrap(o) for o in offsets]
+                acc = _Bits()
+                for v, o in zip(vals, offs, strict=True):
+                    if not isinstance(v, _Bits) or not isinstance(o, int):
+                        raise Undecided("pack_bitlist on values the placement domain cannot follow")
+                    acc = _Bits(acc.items | {(t, x + o) for t, x in v.items})
+                return [Obj("Packed", {"value": acc})]
+
+            models = {
+                "pack_bitlist": packed,
+                "from_int_and_width": lambda v, t=None: Obj("ConstantOp", {"value": v}),
+                "ConstantOp": lambda v, *a: Obj("ConstantOp", {"value": v}),
+            }
+            attrs = {("ConstantOp", "result"): lambda o: _unwrap(o), ("ConstantOp", "results"): lambda o: [_unwrap(o)],
+                     ("Packed", "results"): lambda o: [_unwrap(o)], ("Packed", "result"): lambda o: _unwrap(o)}
+            ex = AbsExec(models, attrs=attrs, where=GEMMX, num_hook=_bits_hook)
+            toks = [_Bits({(f"ch{k}", 0)}) for k in range(8)]
+            env: dict = {xs: list(toks), "self": Obj("Self", {"n": 8})}
+            # lists the loop appends to start empty
+            for n_ in ast.walk(lp):
+                if isinstance(n_, ast.Call) and isinstance(n_.func, ast.Attribute) and n_.func.attr in ("append", "extend") and isinstance(n_.func.value, ast.Name) and n_.func.value.id != xs:
+                    env.setdefault(n_.func.value.id, [])
+            key = f"{m.key}:pack4@{xs}"
+            where = f"{GEMMX}:{lp.lineno}"
+            try:
+                ex.run([lp], env)
+            except (Undecided, AbsRaise) as e:
+                chk.undecided.append(f"C08.shift-packing {key}: {e}")
+                continue
+            found = []
+
+            def collect(v):
+                v = _unwrap(v)
+                if isinstance(v, _Bits) and len(v.items) >= 2:
+                    found.append(v)
+                elif isinstance(v, (list, tuple)):
+                    for x in v:
+                        collect(x)
+
+            for name, val in env.items():
+                if name != xs:
+                    collect(val)
+            for _, args, kw in ex.calls:
+                collect(list(args))
+            regs = {}
+            for b in found:
+                chans = sorted(int(t[2:]) for t, _ in b.items)
+                r = chans[0] // 4
+                if any(ch // 4 != r for ch in chans):
+                    regs[("mixed", tuple(chans))] = b
+                    continue
+                regs[r] = tuple(sorted((int(t[2:]) % 4, o) for t, o in b.items))
+            if not regs:
+                chk.undecided.append(f"C08.shift-packing {key}: no packed register value found")
+                continue
+            maps = {v for k, v in regs.items() if not (isinstance(k, tuple) and k[0] == "mixed")}
+            mixed = [k for k in regs if isinstance(k, tuple) and k[0] == "mixed"]
+            chk.result(len(maps) == 1 and not mixed, "C08.shift-packing", key + ":uniform", where,
+                       f"every register of this loop uses the placement {sorted(maps)[0] if maps else None} (channel mod 4 -> bit offset)",
+                       f"registers of one packing loop differ in placement or mix register groups: {sorted(maps)} {mixed}")
+            if len(maps) == 1:
+                placements.append((key, where, next(iter(maps))))
+    if len(placements) < 2:
+        raise AnalysisError(f"only {len(placements)} four-per-register packing loop(s) could be evaluated in {GEMMX} (2 confirmed by reading)")
+    ref = Counter(p for _, _, p in placements).most_common(1)[0][0]
+    agree = all(p == ref for _, _, p in placements)
+    for key, where, pl in placements:
+        others = [f"{k.split(':')[-2] if ':' in k else k} {p}" for k, _, p in placements if k != key]
+        chk.result(agree, "C08.shift-packing", key + ":sibling", where,
+                   f"placement {pl} agrees with the other packing loop(s)",
+                   f"this loop places (channel mod 4 -> bit offset) as {pl} but the sibling loop(s) use {sorted({p for k, _, p in placements if k != key})}: the setup path and the "
+                   "per-channel launch path program the same registers with different byte orders")
